@@ -303,8 +303,68 @@ def _worker(job):
     return out
 
 
+# --------------------------------------------------------------------------------------------------
+# method calls on operator expressions: attribute / call bind tighter than unary minus and the binary operators
+# (Python's own eval cannot run `.abs()` on a float, so the meaning is given as a Python function)
+# --------------------------------------------------------------------------------------------------
+def _sgn(v):
+    return (v > 0) - (v < 0)
+
+
+METHOD_TEXTS = [
+    ("(-x).abs()", lambda x, y: abs(-x)), ("-x.abs()", lambda x, y: -abs(x)), ("-(x.abs())", lambda x, y: -abs(x)),
+    ("(x + y).abs()", lambda x, y: abs(x + y)), ("x + y.abs()", lambda x, y: x + abs(y)), ("(x - y).abs() * 2", lambda x, y: abs(x - y) * 2),
+    ("(-(x + y)).abs()", lambda x, y: abs(-(x + y))), ("-(x - y).abs()", lambda x, y: -abs(x - y)), ("(-x).abs() - (-y).abs()", lambda x, y: abs(-x) - abs(-y)),
+    ("(x * -y).abs()", lambda x, y: abs(x * -y)), ("(-x).sign()", lambda x, y: _sgn(-x)), ("-x.sign()", lambda x, y: -_sgn(x)),
+    ("(-(-x)).abs()", lambda x, y: abs(x)), ("(x - y).sign() * (y - x).sign()", lambda x, y: _sgn(x - y) * _sgn(y - x)), ("-x.abs() + y", lambda x, y: -abs(x) + y),
+]
+
+
+def check_method_text(text: str, fn) -> Dict[str, Any]:
+    res: Dict[str, Any] = {"text": text, "fails": [], "cells": 0}
+    try:
+        term = _parse(text)
+    except Exception as e:
+        res["fails"].append(["parse", "%s: %s" % (type(e).__name__, str(e)[:160])])
+        return res
+    rt = O.reparse_term(term, ["x", "y"])
+    if rt[0] == "raise":
+        res["fails"].append(["roundtrip", "printed %r does not parse: %s: %s" % (str(term.to_python()), rt[1], rt[2])])
+    else:
+        t2 = rt[1]
+        if not (bool(t2.is_equal(term)) and bool(term.is_equal(t2)) and O.term_dump(t2) == O.term_dump(term)):
+            res["fails"].append(["roundtrip", "printed %r parses back as a different expression %r" % (rt[2], str(t2.to_python()))])
+    for label, txt in (("text", text), ("printed text", str(term.to_python()))):
+        err, vals = _executor_values(txt)
+        if err is not None:
+            res["fails"].append(["value", "%s %r is refused by extend: %s" % (label, txt, err)])
+            continue
+        bad = []
+        for (x, y), got in vals.items():
+            want = fn(x, y)
+            res["cells"] += 1
+            if got[0] != "ok" or not C.values_equiv(want, got[1]):
+                bad.append("x=%r y=%r: meaning %r, executor %r" % (x, y, want, got[1] if got[0] == "ok" else got))
+        if bad:
+            res["fails"].append(["value", "%s %r: %d cells differ, e.g. %s" % (label, txt, len(bad), bad[0])])
+    return res
+
+
 def bounded(rep: Report, tier: str, seed: int) -> None:
     t0 = time.time()
+    n_method_cells = 0
+    for (mt, fn) in METHOD_TEXTS:
+        try:
+            r = check_method_text(mt, fn)
+        except Exception as e:
+            rep.errors.append("harness error on method text %r: %s" % (mt, traceback.format_exc()[-300:]))
+            continue
+        n_method_cells += r["cells"]
+        rep.case("method:" + mt, nontrivial=r["cells"] > 0)
+        for (k, d) in r["fails"]:
+            rep.violations.append(Violation(key="%s:unclassified:%s" % (PID, O.uhash(["method-text", mt, k])), what="text %r: %s" % (mt, d[:400]),
+                                            replay={"module": "cbc.c13", "case": {"text": mt, "method_text": True}, "n_keys": 1, "n_ops": 0}))
+    rep.extra["method_call_texts"] = {"texts": len(METHOD_TEXTS), "value_cells": n_method_cells}
     texts = make_texts(tier, seed)
     t1 = time.time()
     outs = O.pool_map(_worker, O.shards(texts, 8))
@@ -357,6 +417,11 @@ def bounded(rep: Report, tier: str, seed: int) -> None:
 def replay_case(case: Dict[str, Any]) -> bool:
     """Re-run one stored text natively; print what was observed; True iff it still fails."""
     text = case["text"]
+    if case.get("method_text"):
+        fn = dict(METHOD_TEXTS)[text]
+        r = check_method_text(text, fn)
+        print("text:", repr(text), "->", r["fails"] or "ok")
+        return bool(r["fails"])
     print("text:", repr(text))
     print("Python reads it as :", O.python_shape(text))
     try:
